@@ -22,23 +22,23 @@ package code
 //@   pure
 
 //@ func File
-//@   requires pass != nil && istype(pass.ResultOf[tokenfile.Analyzer], map[*token.File]*ast.File)
+//@   requires pass != nil && (tokenfile.Analyzer in pass.ResultOf) && istype(pass.ResultOf[tokenfile.Analyzer], map[*token.File]*ast.File)
 //@   pure
 //@   reads    analysis.Pass.ResultOf, analysis.Pass.Fset, global.tokenfile.Analyzer
-//@   ensures  result == astype(pass.ResultOf[tokenfile.Analyzer], map[*token.File]*ast.File)[pass.Fset.File(node.Pos())]
+//@   ensures  result == get(astype(pass.ResultOf[tokenfile.Analyzer], map[*token.File]*ast.File), pass.Fset.File(node.Pos()))
 
 // The effective language version of a file: what go/types recorded for it (file tag, else the
 // package's version from the module or the -go flag).
 //@ func LanguageVersion
-//@   requires pass != nil && pass.TypesInfo != nil && istype(pass.ResultOf[tokenfile.Analyzer], map[*token.File]*ast.File)
+//@   requires pass != nil && pass.TypesInfo != nil && (tokenfile.Analyzer in pass.ResultOf) && istype(pass.ResultOf[tokenfile.Analyzer], map[*token.File]*ast.File)
 //@   pure
 //@   reads    analysis.Pass.ResultOf, analysis.Pass.Fset, analysis.Pass.TypesInfo, types.Info.FileVersions, global.tokenfile.Analyzer
-//@   ensures  result == pass.TypesInfo.FileVersions[File(pass, node)]
+//@   ensures  result == get(pass.TypesInfo.FileVersions, File(pass, node))
 
 // Documented behaviour of StdlibVersion: no file tag => the package (module / -go) version;
 // module older than go1.21 => the file tag; otherwise the larger of file tag and module version.
 //@ func StdlibVersion
-//@   requires pass != nil && pass.Pkg != nil && istype(pass.ResultOf[tokenfile.Analyzer], map[*token.File]*ast.File)
+//@   requires pass != nil && pass.Pkg != nil && (tokenfile.Analyzer in pass.ResultOf) && istype(pass.ResultOf[tokenfile.Analyzer], map[*token.File]*ast.File)
 //@   pure
 //@   reads    analysis.Pass.ResultOf, analysis.Pass.Fset, analysis.Pass.Pkg, ast.File.GoVersion, global.tokenfile.Analyzer
 //@   panics_when File(pass, node) == nil
